@@ -15,6 +15,11 @@ def main(argv=None):
     res = world.run_functions(ck, MODS, FUNCS, timeout=20 if ck.tier == "quick" else 60, hooks_mod="contracts.parser")
     from vlib.modelreplay import make_replayer
     world.report(ck, res, select=lambda n: any(k in n for k in KEEP), replayer=make_replayer(ck, MODS))
+    # "the connection is closed, nothing behind the refused message is served": received() parses only while no close decision is visible
+    # under requests_lock (the channel-side half of the statement; the decision itself is C11's subject)
+    from props import chanworld
+    resc = chanworld.run(ck, [("channel.HTTPChannel.received", "IO")])
+    world.report(ck, resc, select=lambda n: "C11-no-close-decision-while-parsing" in n or "received@IO/coverage" in n or "received@IO/raises" in n)
     facts = []
     for r in res:
         facts.extend(r.get("regex_facts", []))
